@@ -125,7 +125,14 @@ func TestVerifC09(t *testing.T) {
 					}
 				}
 			}
-			if strings.HasPrefix(op, "clean ") {
+			compact := strings.Contains(prog[0], "compact=1")
+			if compact && op == "read 0 u" && i > 0 && strings.HasPrefix(prog[i-1], "clean ") && fail == "" && impl[i] != mod[i] {
+				// with compaction in the same clean the layouts are not comparable segment by segment; what the log holds after
+				// the clean is: retention removes whole oldest segments while a limit is exceeded and stops as soon as none is
+				// (counting the messages the segments really hold), then compaction thins what is left - one answer, the model's
+				fail, tag = fmt.Sprintf("op %d: after the clean the log holds %s; removing only the oldest segments needed for the limits (then compacting) leaves %s", i, impl[i], mod[i]), "retention-not-minimal"
+			}
+			if strings.HasPrefix(op, "clean ") && !compact {
 				ttl, _ := strconv.ParseInt(strings.Fields(op)[1], 10, 64)
 				a, b := own(vParseSegs(impl[pre])), own(vParseSegs(impl[i]))
 				if len(a) >= 2 && (lim[0] > 0 || lim[1] > 0 || lim[2] > 0) {
@@ -159,7 +166,7 @@ func TestVerifC09(t *testing.T) {
 				if !ok && vStateInt(impl[pre], "new") >= 0 {
 					fail, tag = fmt.Sprintf("op %d: read-back failed: %s", i, impl[i]), "retention-read-failed"
 				}
-				for k := 1; k < len(rs); k++ {
+				for k := 1; k < len(rs) && !strings.Contains(prog[0], "compact=1"); k++ { // (a compacted log has gaps)
 					if rs[k].off != rs[k-1].off+1 {
 						fail, tag = fmt.Sprintf("op %d: read-back is not contiguous: offset %d follows %d", i, rs[k].off, rs[k-1].off), "retention-not-contiguous"
 						break
@@ -235,6 +242,32 @@ func TestVerifC09(t *testing.T) {
 		n = 30000
 	}
 	for it := 0; it < n; it++ {
+		if it%6 == 5 {
+			// retention by message count on a COMPACTED log: a first clean compacts (sealed segments become sparse), more
+			// appends, a second clean in the same process has to count what the segments really hold
+			maxSeg := []int64{60, 150}[rnd.Intn(2)]
+			total := 6 + rnd.Intn(10)
+			prog := []string{fmt.Sprintf("begin %d 0 compact=1 maxmsgs=%d", maxSeg, total/2+rnd.Intn(total))}
+			ts := int64(1000)
+			next := 0
+			app := func(k int) {
+				for i := 0; i < k; i++ {
+					ts += 10
+					prog = append(prog, fmt.Sprintf("append 1 %d 6%d/*%d.5/_/-1", ts, 1+rnd.Intn(3), rnd.Intn(3)*20))
+					next++
+				}
+			}
+			app(total)
+			prog = append(prog, fmt.Sprintf("sethw %d", next-1-rnd.Intn(2)), "clean 0", "read 0 u")
+			app(2 + rnd.Intn(6))
+			prog = append(prog, fmt.Sprintf("sethw %d", next-1-rnd.Intn(2)), "clean 0", "read 0 u", "reopen", "read 0 u")
+			res.Dist("compacted-log-count-limit")
+			check(prog, [3]int64{0, 1, 0})
+			if len(res.Failures) >= 10 {
+				break
+			}
+			continue
+		}
 		maxSeg := []int64{1, 60, 150}[rnd.Intn(3)]
 		nApp := 1 + rnd.Intn(8)
 		// decide limits around plausible totals
